@@ -1,4 +1,5 @@
 import Taskpool.Props.C06
+import Taskpool.Inv.GoodInv
 /-! # C13 — flush forgets finished tasks only -/
 namespace Taskpool
 open Pool
@@ -68,5 +69,18 @@ def C13_demo : History :=
 
 example : (((World.init 0).run C13_demo).pools.map fun p => (p.ended, p.tasks.length, p.apis.map (·.outcome))) =
     [([], 1, [some Outcome.ok])] := by decide +kernel
+
+/-- **`flush` never forgets a task that is still running or still inside its callbacks** — in every pool after every
+history without `gather_and_close`, with any number of overlapping `flush()` calls landing anywhere relative to tasks
+ending, being cancelled and sitting in slow callbacks: a task that has not yet handed back its slot is still counted as
+running or as cancelled (so `cancel()` still knows it), and no wrapper ever missed its registry entry. The proof goes
+through the invariant that a `flush` suspended in its second gather awaits every task of its cancelled-registry
+snapshot and that a gather completes normally only when all its child tasks have finished (`FlushOK`, DESIGN §4.3). -/
+theorem C13_never_forgets_unfinished (base : Nat) (h : History) (hn : ∀ x ∈ h, x.admits noGac = true) (i : Nat) (c : Cfg)
+    (p : Pool) (hc : ((World.init base).run h).cfgs[i]? = some c) (hp : ((World.init base).run h).pools[i]? = some p) :
+    p.lost = false ∧
+    ∀ (t : Nat) (tk : PTask), p.tasks[t]? = some tk → tk.released = false → t ∈ p.running ∨ t ∈ p.cancelledR := by
+  obtain ⟨hl, hr, _⟩ := strictAll base h hn i c p hc hp
+  exact ⟨hl, fun t tk ht hrel => hr.cpl hl t tk ht hrel⟩
 
 end Taskpool
